@@ -1,1 +1,36 @@
-From Verif Require Import Model.Store.
+(* Props/C15.v — hybrid: evicted entries reach the secondary tier; memory stays bounded *)
+From Coq Require Import ZArith List Bool.
+From Verif Require Import Base.Word64 Model.Expiry Model.Store Proof.StoreMap Proof.HybridP.
+Import ListNotations.
+Open Scope Z_scope.
+
+(* admission probability 1, room in the hand-off queue: a capacity eviction of an entry that the
+   secondary tier does not already hold (flag cleared by any update — F15a/F15d fixes) hands it to
+   the worker, notifies nobody yet, and leaves it readable in the map *)
+Theorem c15_eviction_hands_off : forall s id now e,
+  get_ent s id = Some e -> hyb s = true -> f_nvm e = false -> Z.of_nat (length (hand s)) < 256 ->
+  let s' := fst (removeEntry s id reasonEVICTED now) in
+  hand s' = hand s ++ [id] /\ smap s' = smap s /\ snd (removeEntry s id reasonEVICTED now) = [].
+Proof. exact eviction_hands_off. Qed.
+Print Assumptions c15_eviction_hands_off.
+
+(* the worker writes the entry's current value, cost and deadline (with or without TTL) to the
+   secondary tier before it disappears from memory; if the secondary Set fails the error handler is
+   invoked and the entry still leaves memory (F15f fix), so the memory tier keeps honouring MaxSize *)
+Theorem c15_worker_demotes : forall s id rest e,
+  hand s = id :: rest -> get_ent s id = Some e -> map_get (smap s) (skey e) = Some id ->
+  sec_get (worker_step s true) (skey e) = Some (sval e, sweight e, sexpire e) /\
+  map_get (smap (worker_step s true)) (skey e) = None /\
+  map_get (smap (worker_step s false)) (skey e) = None /\
+  secerrs (worker_step s false) = secerrs s + 1 /\ sec (worker_step s false) = sec s.
+Proof. exact worker_demotes. Qed.
+Print Assumptions c15_worker_demotes.
+
+(* so a later Get finds it there without a loader call (C14's c14_get_fresh gives the value) *)
+Example c15_found_later :
+  let s0 := set_hyb (newStore 1 1 0 1) true in
+  let s1 := fst (sset s0 5 50 1 0 2 555 true) in let s2 := fst (sink_nth s1 0 3 0 0) in
+  let s3 := fst (sset s2 6 60 1 0 4 666 true) in let s4 := fst (sink_nth s3 0 5 0 0) in
+  let s5 := worker_step s4 true in
+  hand s4 = [0] /\ sec_get s5 5 = Some (50, 1, 0) /\ snd (hget s5 5 6 555 true) = [1; 50].
+Proof. vm_compute. repeat split. Qed.
